@@ -9,8 +9,9 @@ drv_vinegar ops (not verified; exercised on every line of the C09 correspondence
   <r>    three of T/F: import_custom_exceptions, instantiate_custom_exceptions, instantiate_oldstyle_exceptions
   <s><k> four of T/F (include_local_traceback, include_local_version, propagate_SystemExit_locally,
          propagate_KeyboardInterrupt_locally) followed by b|c (the class is the built-in object / is not)
-  <env>  loaded T/F, importable T/F, then two of m|n|t|e|a: what getattr(sys.modules[modname], clsname, None)
-         and getattr(builtins, clsname, None) are (missing, not a type, a type that is no exception, an
+  <env>  loaded T/F, importable T/F, then two of m|n|t|e|a, then lazy T/F (the module defines a PEP 562 `__getattr__`): what
+         the module's own namespace holds under clsname (vars(sys.modules[modname]).get(clsname))
+         and what getattr(builtins, clsname, None) is (missing, not a type, a type that is no exception, an
          exception class, an exception class whose __new__ needs arguments)
   <fmt>  N (unused) | S.. ("%s.%s" % (modname, clsname)) | ( S<error name> )
   <settable> ( ( S<name> <value> I0|S<error name> T|F ) ... ): the setattr outcomes that are not "stored"
@@ -23,7 +24,7 @@ drv_vinegar ops (not verified; exercised on every line of the C09 correspondence
   <hd> ( S<module> S<name> )   <args> ( v .. ) with O<k> for what brine cannot carry
   <reprs> ( S..|N .. ) parallel to args   <dir> ( ( S<name> I<0 AttributeError|1 data|2 other> <value> S<repr>|N ) .. )
 
-Outputs:  load: `imp <tuple of module names> init <n> out <outcome> | <seen>`;
+Outputs:  load: `imp <tuple of module names> init <n> code <k> out <outcome> | <seen>` (k: module-level code run by the lookup);
   rt: `local` | `pay err <E>` (dump raises) | `noreply err <E>` | `pay <payload> | ` + the same as load.
 -/
 namespace Rpyc.Drv
@@ -75,10 +76,10 @@ def fmtOf : Val → Option (Except Err Str)
 
 def mkEnv (envs : String) (fmt tbl : Val) : Option Env :=
   match envs.toList, fmtOf fmt, setTable tbl with
-  | [l, i, ma, ba], some f, some t =>
-    match flags (String.ofList [l, i]), objKind ma, objKind ba with
-    | some [loaded, importable], some mk, some bk =>
-      some { loaded := fun _ => loaded, importable := fun _ => importable, modAttr := fun _ _ => mk,
+  | [l, i, ma, ba, lz], some f, some t =>
+    match flags (String.ofList [l, i, lz]), objKind ma, objKind ba with
+    | some [loaded, importable, lazy], some mk, some bk =>
+      some { loaded := fun _ => loaded, importable := fun _ => importable, lazy := fun _ => lazy, modAttr := fun _ _ => mk,
              builtinAttr := fun _ => bk, fmtName := fun _ _ => f,
              setattr := fun cls n v =>
                match t.find? (fun row => row.1 == n && Val.beq row.2.1 v && row.2.2.2 == isGeneric cls) with
@@ -175,6 +176,7 @@ def baseOf : Val → Option (Option (Except Err Str))
 def showLoad (base : Option (Except Err Str)) (res : LoadResult) : String :=
   let imps := res.events.filterMap (fun ev => match ev with | .importAttempt m => some m | _ => none)
   let inits := (res.events.filter (fun ev => match ev with | .init _ => true | _ => false)).length
+  let codes := (res.events.filter (fun ev => match ev with | .moduleCode _ _ => true | _ => false)).length
   let out := match res.out with
     | .error e => "err " ++ e.name
     | .ok .stopIterationClass => "stopcls"
@@ -183,7 +185,7 @@ def showLoad (base : Option (Except Err Str)) (res : LoadResult) : String :=
   let seenBase := match res.out with
     | .ok (.exc _) => base
     | _ => none
-  "imp " ++ showVal (.tuple imps) ++ " init " ++ toString inits ++ " out " ++ out ++ " | "
+  "imp " ++ showVal (.tuple imps) ++ " init " ++ toString inits ++ " code " ++ toString codes ++ " out " ++ out ++ " | "
     ++ showSeen seenBase (requesterSees res)
 
 def vinegarOp : List String → String
